@@ -113,6 +113,16 @@ pub fn run(parts: &[String]) -> String {
             #[cfg(feature = "ark")]
             "aff" => { let a = pop_e(&mut st); st.push(V::A(a.into())) }
             #[cfg(feature = "ark")]
+            "affref" => { let a = pop_e(&mut st); let r: Aff = (&a).into(); st.push(V::A(r)) }
+            #[cfg(feature = "ark")]
+            "affinto" => { let a = pop_e(&mut st); st.push(V::A(CurveGroup::into_affine(a))) }
+            #[cfg(feature = "ark")]
+            "elref" => { let a = pop_a(&mut st); let r: Element = (&a).into(); st.push(V::E(r)) }
+            #[cfg(feature = "ark")]
+            "elval" => { let a = pop_a(&mut st); let r: Element = a.into(); st.push(V::E(r)) }
+            #[cfg(feature = "ark")]
+            "gdouble" => { let a = pop_e(&mut st); st.push(V::E(Group::double(&a))) }
+            #[cfg(feature = "ark")]
             "mulbig" => { let e = pop_e(&mut st); st.push(V::E(Group::mul_bigint(&e, limbs_of(&unhex(arg))))) }
             #[cfg(feature = "ark")]
             "amulbig" => { let a = pop_a(&mut st); st.push(V::E(AffineRepr::mul_bigint(&a, limbs_of(&unhex(arg))))) }
@@ -174,6 +184,8 @@ pub fn run(parts: &[String]) -> String {
             "bls" => return crate::bls::run(arg),
             #[cfg(feature = "ark")]
             "r1cs" => return crate::r1cs::run(arg),
+            #[cfg(feature = "ark")]
+            "shape" => return crate::shape::run(arg),
             _ => { if let Some(s) = crate::cmds::field_generic(op, arg, &mut st) { return s; } }
         }
     }
